@@ -1,5 +1,6 @@
 """C08 - memory-operand forms compose register-form data with load/store data."""
 import ast
+import os
 import re
 
 from .. import pm
@@ -23,22 +24,24 @@ FN = "ArchSemantics.assign_tp_lt"
 
 def _composed_block(ctx, f):
     """The `if instruction_data_reg:` block (register form found) of assign_tp_lt."""
-    regvars = []
+    flow = C.flow_of(f)
+    regvars = set()
     for n in ast.walk(f.node):
-        if isinstance(n, ast.Assign) and isinstance(n.targets[0], ast.Name) and C.is_call_to(n.value, "get_instruction"):
-            a0 = C.arg_of(n.value, 1)
-            if a0 is not None and isinstance(a0, ast.Name) and a0.id != "operands" or (
-                    a0 is not None and U(a0) == "operands"):
-                pass
-            regvars.append(n.targets[0].id)
-    blocks = [n for n in ast.walk(f.node) if isinstance(n, ast.If) and isinstance(n.test, ast.Name)
-              and n.test.id in regvars and any(U(s) == "assign_unknown = False" for s in n.body)]
+        if isinstance(n, ast.Assign) and isinstance(n.targets[0], ast.Name):
+            # bound from a model look-up, directly or through locals (a look-up helper expanded in place)
+            if C.is_call_to(n.value, "get_instruction") or any(
+                    isinstance(x, ast.AST) and C.is_call_to(x, "get_instruction") for x in flow.expand(n.value)):
+                regvars.add(n.targets[0].id)
+    # the block that composes: entered when the register form was found, and reading the load / store tables
+    blocks = [n for n in ast.walk(f.node) if isinstance(n, ast.If) and isinstance(n.test, ast.Name) and n.test.id in regvars
+              and any(isinstance(c, ast.Call) and pm.call_name(c).endswith(("get_load_throughput", "get_store_throughput"))
+                      for st in n.body for c in ast.walk(st))]
     if len(blocks) != 1:
-        ctx.broken("R1: the `if <register form>:` block that clears assign_unknown was not found in %s" % FN)
+        ctx.broken("R1: the `if <register form>:` block that composes the register form with the load / store rows was not found in %s" % FN)
     return blocks[0], blocks[0].test.id
 
 
-def _r1(ctx, f, blk, reg):
+def _r1(ctx, f, blk, reg, with_latency=True):
     ctx.rule("R1", "composition provenance: sum / concatenation / latency sum / max")
     flow = C.flow_of(f)
 
@@ -50,112 +53,10 @@ def _r1(ctx, f, blk, reg):
         ctx.check(ok, "R1", desc, f.where(node if node is not None else blk),
                   "composition provenance broken: %s %s" % (desc, detail), f.qname, desc)
 
-    # port pressure = zip-sum(data ports, average(reg form))
     pp = [n for n, b in pm.find("instruction_form.port_pressure = M_v", blk)]
-    ok = False
-    detail = ""
-    for n in pp:
-        for pat in ("[sum(M_x) for M_x in zip(M_a, M_b)]", "[M_p + M_q for M_p, M_q in zip(M_a, M_b)]",
-                    "list(map(sum, zip(M_a, M_b)))"):
-            b = pm.match(pat, n.value)
-            if b is None:
-                continue
-            sides = [b["M_a"], b["M_b"]]
-            avg = [s for s in sides if pm.match("self._machine_model.average_port_pressure(%s.port_pressure)" % reg, s)]
-            dpp = [s for s in sides if isinstance(s, ast.Name)]
-            if len(avg) == 1 and len(dpp) == 1:
-                ok = True
-                dpp_name = dpp[0].id
-        detail = U(n.value)[:160]
-    need("port_pressure = element-wise sum(data-port vector, average(register form))", ok,
-         pp[0] if pp else None, "(found: %s)" % detail)
-    # port_uops = concat
     pu = [n for n, b in pm.find("instruction_form.port_uops = M_v", blk)]
-    ok2 = False
-    duops = None
-    for n in pu:
-        for pat in ("list(chain(M_a, M_b))", "M_a + M_b", "[*M_a, *M_b]", "list(M_a) + list(M_b)"):
-            b = pm.match(pat, n.value)
-            if b is None:
-                continue
-            def is_reg_uops(e):
-                """the register form's micro-op container, directly or through a local that holds it / one option of it"""
-                src0 = "%s.port_pressure" % reg
-                opts = ["%s[M_k]", "list(%s.values())[M_k]", "next(iter(%s.values()))"]
-                if U(e) == src0:
-                    return True
-                if isinstance(e, ast.IfExp):
-                    # <one option> if isinstance(<container>, dict) else <container>   (or the inverted form)
-                    t = e.test
-                    neg = isinstance(t, ast.UnaryOp) and isinstance(t.op, ast.Not)
-                    t = t.operand if neg else t
-                    sel, plain = (e.orelse, e.body) if neg else (e.body, e.orelse)
-                    if pm.match("isinstance(%s, dict)" % src0, t) is not None and U(plain) == src0 and any(
-                            pm.match(p_ % src0, sel) is not None for p_ in opts):
-                        return True
-                    return False
-                if not isinstance(e, ast.Name):
-                    return False
-                defs = [d for d in C.assigns_to(f.node, e.id) if isinstance(d, ast.Assign)]
-                srcs = ("%s.port_pressure" % reg, e.id)
-                return bool(defs) and any(U(d.value) == srcs[0] for d in defs) and all(
-                    U(d.value) == srcs[0] or any(pm.match(p % x, d.value) is not None for x in srcs for p in (
-                        "%s[M_k]", "list(%s.values())[M_k]", "next(iter(%s.values()))")) for d in defs)
-            regside = [x for x in (b["M_a"], b["M_b"]) if is_reg_uops(x)]
-            if len(regside) == 1:
-                other = [U(x) for x in (b["M_a"], b["M_b"]) if x is not regside[0]]
-                if len(other) == 1 and other[0].isidentifier():
-                    ok2 = True
-                    duops = other[0]
-    need("port_uops = register form's micro-ops ++ data micro-ops", ok2, pu[0] if pu else None,
-         "(found: %s)" % (U(pu[0].value)[:120] if pu else "no store"))
-    # throughput
-    tp = [n for n, b in pm.find("throughput = M_v", blk)]
-    ok3 = False
-    for n in tp:
-        for pat in ("max(max(M_d), M_r)", "max(M_r, max(M_d))"):
-            b = pm.match(pat, n.value)
-            if b is None:
-                continue
-            r_or = origins(b["M_r"])
-            if any("%s.throughput" % reg in t for t in r_or) and isinstance(b["M_d"], ast.Name):
-                ok3 = ok and b["M_d"].id == dpp_name if ok else True
-    need("throughput = max(busiest data port, register form's throughput)", ok3, tp[0] if tp else None,
-         "(found: %s)" % (U(tp[0].value) if tp else "none"))
-    # latency: starts from reg latency, += load latency(reg_type) under HAS_LD, += store latency under HAS_ST
-    lat0 = [n for n in ast.walk(blk) if isinstance(n, ast.Assign) and U(n.targets[0]) == "latency"]
-    ok4 = bool(lat0) and all(any("%s.latency" % reg in t for t in origins(n.value)) for n in lat0) and all(
-        isinstance(n.value, (ast.Name, ast.Attribute)) for n in lat0)
-    need("latency starts from the register form's latency", ok4, lat0[0] if lat0 else None)
-    adds = [n for n in ast.walk(blk) if isinstance(n, ast.AugAssign) and U(n.target) == "latency"]
-    kinds = set()
-    for n in adds:
-        if not isinstance(n.op, ast.Add):
-            need("latency contributions are added", False, n, "(found `%s`)" % U(n))
-            continue
-        b = pm.match("self._machine_model.M_fn(reg_type) if M_flag in instruction_form.flags else 0", n.value)
-        if b is None:
-            need("latency addend has the form get_*_latency(reg_type) if <flag> in flags else 0", False, n,
-                 "(found `%s`)" % U(n.value))
-            continue
-        kinds.add((b["M_fn"], U(b["M_flag"])))
-    need("latency += load latency of the register type when the instruction loads",
-         ("get_load_latency", "INSTR_FLAGS.HAS_LD") in kinds, adds[0] if adds else None,
-         "(addends found: %s)" % sorted(kinds))
-    need("latency += store latency of the register type when the instruction stores",
-         ("get_store_latency", "INSTR_FLAGS.HAS_ST") in kinds, adds[0] if adds else None,
-         "(addends found: %s)" % sorted(kinds))
-    # latency_wo_load from reg latency only
-    lw = [n for n in ast.walk(blk) if isinstance(n, ast.Assign) and U(n.targets[0]) == "latency_wo_load"]
-    ok5 = len(lw) == 1 and isinstance(lw[0].value, (ast.Name, ast.Attribute)) and all(
-        "%s.latency" % reg in t or t in ("0.0", "0") for t in origins(lw[0].value)) and U(lw[0].value) != "latency"
-    need("latency_wo_load originates from the register form's latency only", ok5, lw[0] if lw else None,
-         "(found: %s)" % (U(lw[0]) if lw else "none"))
-    # reg_type from the entry operand at the substituted position
-    rt = pm.find("reg_type = self._parser.get_reg_type(%s.operands[operands.index(self._create_reg_wildcard())])" % reg, blk)
-    need("register type = type of the entry's operand at the substituted position", bool(rt))
-    subst = pm.find("operands = self.substitute_mem_address(instruction_form.operands)", f.node)
-    need("register form is looked up with the memory operand replaced by the register wildcard", bool(subst))
+    need("the composed form stores its port pressure", bool(pp))
+    need("the composed form stores its micro-ops", bool(pu))
     # ---- the composed pressure vector and micro-op list as symbolic sums / concatenations of their sources ----------
     # (followed through locals, helpers that were expanded in place, conditional scaling; what is not one of the known
     # vector / list operations is "not understood", never a violation)
@@ -341,6 +242,24 @@ def _r1(ctx, f, blk, reg):
             return out[:256]
         return _unk(e)
 
+    kinds_cache = {}
+
+    def leaf_kind(src):
+        """REG / LOAD / STORE / MIX / ? - the table a leaf source of micro-ops was read from"""
+        if src == ("REG",):
+            return "REG"
+        if src not in kinds_cache:
+            st_ = [x for x in ast.walk(f.node) if isinstance(x, ast.stmt) and getattr(x, "lineno", None) == src[1] and src[2] in U(x)]
+            ks = set()
+            for x in st_:
+                val = getattr(x, "value", None)
+                if val is not None:
+                    ks |= kind_of(val, x)
+            kinds_cache[src] = ks
+        ks = kinds_cache[src]
+        return next(iter(ks)) if len(ks) == 1 else ("MIX" if ks else "?")
+
+    valts = UNK
     if pp and pu:
         valts = vec(pp[0].value, pp[0])
         ualts = seq(pu[0].value, pu[0])
@@ -349,30 +268,6 @@ def _r1(ctx, f, blk, reg):
             ctx.unknown("R1", inst, f.where(pp[0]), "the composed %s is not built from the known vector / list operations%s" % (
                 "pressure vector" if valts is UNK else "micro-op list", (" (at `%s`)" % why_unk[0]) if why_unk else ""))
         else:
-            def kind(src):
-                if src == ("REG",):
-                    return "REG"
-                ks = set()
-                for d_ in ast.walk(blk):
-                    pass
-                return None
-            # classify each leaf by the table it was read from
-            kinds_cache = {}
-            def leaf_kind(src):
-                if src == ("REG",):
-                    return "REG"
-                if src not in kinds_cache:
-                    # re-find the defining statement by line and evaluate the kinds of the names it reads
-                    st_ = [x for x in ast.walk(f.node) if isinstance(x, ast.stmt) and getattr(x, "lineno", None) == src[1]
-                           and src[2] in U(x)]
-                    ks = set()
-                    for x in st_:
-                        val = getattr(x, "value", None)
-                        if val is not None:
-                            ks |= kind_of(val, x)
-                    kinds_cache[src] = ks
-                ks = kinds_cache[src]
-                return next(iter(ks)) if len(ks) == 1 else ("MIX" if ks else "?")
             allowed = {"REG": (), "LOAD": ("load_throughput_multiplier",), "STORE": ("store_throughput_multiplier",)}
             bad_terms, unk_terms = [], []
             for alt in valts:
@@ -424,10 +319,155 @@ def _r1(ctx, f, blk, reg):
                 ctx.check(guarded and rt_ == "reg_type", "R1", "scaling by %s[reg_type] only when the model defines it" % key_, f.where(st_),
                           "composition provenance broken: the %s scaling is %s" % (key_, "not guarded by `'%s' in model`" % key_ if not guarded
                                                                                     else "indexed by %s" % rt_), f.qname, "scaling guard " + key_)
+    # ---- throughput = max(busiest data port, register form's throughput) ------------------------------------------------
+    if with_latency:
+        tps = [n for n in ast.walk(blk) if isinstance(n, ast.Assign) and U(n.targets[0]) == "throughput"]
+        ok3, rec3 = False, False
+        for n in tps:
+            v = n.value
+            if isinstance(v, ast.Call) and pm.call_name(v) in ("max", "min") and len(v.args) == 2:
+                inner = [x for x in v.args if isinstance(x, ast.Call) and pm.call_name(x) in ("max", "min", "sum") and len(x.args) == 1]
+                other = [x for x in v.args if x not in inner]
+                if len(inner) == 1 and len(other) == 1:
+                    dv = vec(inner[0].args[0], n)
+                    rec3 = dv is not UNK and valts is not UNK
+                    if pm.call_name(v) != "max" or pm.call_name(inner[0]) != "max":
+                        ok3 = False
+                        continue
+                    data_ok = dv is not UNK and pp and valts is not UNK and {tuple(sorted(map(repr, alt))) for alt in dv} == {
+                        tuple(sorted(repr(t_) for t_ in alt if leaf_kind(t_[0]) != "REG")) for alt in valts}
+                    r_or = origins(other[0])
+                    ok3 = bool(data_ok) and any("%s.throughput" % reg in t for t in r_or)
+                    if os.environ.get("OSACA_SA_DEBUG"):
+                        print("DBG tp", dv if dv is UNK else sorted({tuple(sorted(map(repr, alt))) for alt in dv}), "\nVS", valts is UNK or sorted({
+                            tuple(sorted(repr(t_) for t_ in alt if leaf_kind(t_[0]) != "REG")) for alt in valts}), r_or)
+        ctx.judge(ok3, rec3 or not tps, "R1", "throughput = max(busiest data port, register form's throughput)", f.where(tps[0]) if tps else f.where(blk),
+                  "composition provenance broken: throughput = max(busiest data port, register form's throughput) (found: %s)" % (
+                      U(tps[0].value)[:120] if tps else "none"), f.qname, "throughput = max(busiest data port, register form's throughput)")
+        # ---- latency = register form's latency [+ load latency(reg type) when it loads] [+ store latency when it stores] ----
+        def flag_of(e):
+            m_ = pm.match("M_f in instruction_form.flags", e)
+            return U(m_["M_f"]).split(".")[-1] if m_ is not None else None
+
+        def scal(e, at, guards=frozenset(), depth=0):
+            """alternatives of a latency value: tuples of (term, flags it is conditioned on)"""
+            if depth > 40:
+                return UNK
+            if C.const_num(e) == 0:
+                return [()]
+            if isinstance(e, ast.Attribute) and U(e) == "%s.latency" % reg:
+                return [(("REG", frozenset()),)]
+            if isinstance(e, ast.Call) and pm.call_name(e).endswith(("get_load_latency", "get_store_latency")) and len(e.args) == 1 \
+                    and U(flow.subst(e.args[0]) if isinstance(e.args[0], ast.Name) and False else e.args[0]) == "reg_type":
+                here = {flag_of(x) for x, pol in C.norm_fact_nodes(at) if pol and flag_of(x)}
+                return [((("LD" if "load" in pm.call_name(e) else "ST"), frozenset(guards | here)),)]
+            if isinstance(e, ast.IfExp):
+                fl = flag_of(e.test)
+                for yes, no in ((e.body, e.orelse), (e.orelse, e.body)):
+                    if C.const_num(no) == 0 and fl is not None and yes is e.body:
+                        r = scal(yes, at, guards | {fl}, depth + 1)
+                        return UNK if r is UNK else r + [()]
+                a_, b_ = scal(e.body, at, guards, depth + 1), scal(e.orelse, at, guards, depth + 1)
+                return UNK if a_ is UNK or b_ is UNK else a_ + b_
+            if isinstance(e, ast.BinOp) and isinstance(e.op, ast.Add):
+                a_, b_ = scal(e.left, at, guards, depth + 1), scal(e.right, at, guards, depth + 1)
+                return UNK if a_ is UNK or b_ is UNK else [x + y for x in a_ for y in b_][:128]
+            if isinstance(e, ast.Name) and flow.is_local(e.id):
+                try:
+                    ds = flow.reaching(at, e.id)
+                except KeyError:
+                    return UNK
+                out = []
+                for d in ds:
+                    if d.kind == "assign" and d.value is not None and C.const_num(d.value) == 0 and C.holds_at(d.stmt, "%s is None" % e.id):
+                        # `x = 0.0` where x is None: the same quantity with "unknown" read as 0 - follow what x was
+                        r = scal(ast.Name(id=e.id, ctx=ast.Load()), d.stmt, guards, depth + 1)
+                    elif d.kind == "assign" and d.value is not None:
+                        r = scal(d.value, d.stmt, guards, depth + 1)
+                    elif d.kind == "aug" and isinstance(d.stmt.op, ast.Add):
+                        l_, r_ = scal(ast.Name(id=e.id, ctx=ast.Load()), d.stmt, guards, depth + 1), scal(d.value, d.stmt, guards, depth + 1)
+                        r = UNK if l_ is UNK or r_ is UNK else [x + y for x in l_ for y in r_][:128]
+                    else:
+                        r = UNK
+                    if r is UNK:
+                        return UNK
+                    out.extend(r)
+                return out[:128]
+            return UNK
+
+        def final_alts(name):
+            """alternatives of `name` where the block is left: over its definitions in the block that no other one follows"""
+            defs_ = [n for n in ast.walk(blk) if (isinstance(n, ast.Assign) and any(U(t_) == name for t_ in n.targets)) or (
+                isinstance(n, ast.AugAssign) and U(n.target) == name)]
+            last = [d for d in defs_ if not any(o is not d and cfg.reachable(d, o, within=None) and C.in_subtree(o, blk) for o in defs_)]
+            out = []
+            for d in last:
+                if isinstance(d, ast.Assign):
+                    r = scal(d.value, d)
+                else:
+                    l_, r_ = scal(ast.Name(id=name, ctx=ast.Load()), d), scal(d.value, d)
+                    r = UNK if l_ is UNK or r_ is UNK or not isinstance(d.op, ast.Add) else [x + y for x in l_ for y in r_]
+                if r is UNK:
+                    return UNK, defs_
+                out.extend(r)
+            return out, defs_
+
+        lalts, ldefs = final_alts("latency")
+        inst_l = "latency = register form [+ load latency when loading] [+ store latency when storing]"
+        if lalts is UNK or not ldefs:
+            ctx.unknown("R1", inst_l, f.where(ldefs[0]) if ldefs else f.where(blk), "the composed latency is not a sum of the known terms")
+        else:
+            bad = None
+            seen_terms = set()
+            for alt in lalts:
+                ks = [t for t, _ in alt]
+                seen_terms |= set(ks)
+                if ks.count("REG") != 1:
+                    bad = "the register form's latency occurs %d times in %s" % (ks.count("REG"), ks)
+                for t, fl in alt:
+                    if t == "LD" and "HAS_LD" not in fl:
+                        bad = "the load latency is added without testing HAS_LD"
+                    if t == "ST" and "HAS_ST" not in fl:
+                        bad = "the store latency is added without testing HAS_ST"
+                if ks.count("LD") > 1 or ks.count("ST") > 1:
+                    bad = "a load / store latency is added twice (%s)" % ks
+            if bad is None and "LD" not in seen_terms:
+                bad = "no path adds the load latency of the register type"
+            if bad is None and "ST" not in seen_terms:
+                bad = "no path adds the store latency of the register type"
+            ctx.check(bad is None, "R1", inst_l, f.where(ldefs[0]), "composition provenance broken: %s" % bad, f.qname, "composed latency terms")
+        walts, wdefs = final_alts("latency_wo_load")
+        if not wdefs:
+            ctx.unknown("R1", "latency_wo_load of the composed form", f.where(blk), "no definition of latency_wo_load in the composing block")
+        elif walts is UNK:
+            ctx.unknown("R1", "latency_wo_load of the composed form", f.where(wdefs[0]), "not a sum of the known terms")
+        else:
+            okw = all([t for t, _ in alt] in (["REG"], []) for alt in walts) and any(alt for alt in walts)
+            ctx.check(okw, "R1", "latency_wo_load originates from the register form's latency only", f.where(wdefs[0]),
+                      "composition provenance broken: latency_wo_load originates from the register form's latency only (found terms: %s)" % (
+                          [[t for t, _ in alt] for alt in walts][:3]), f.qname, "latency_wo_load originates from the register form's latency only")
+        # ---- register type and wildcard look-up ---------------------------------------------------------------------------
+        rts = [n for n in ast.walk(blk) if isinstance(n, ast.Assign) and U(n.targets[0]) == "reg_type"]
+        got_rt, rt_ok = [], bool(rts)
+        reg_origin = set(flow.origin_text(ast.Name(id=reg, ctx=ast.Load()))) if False else None
+        for n in rts:
+            got_rt.append(U(n.value)[:160])
+            m_ = pm.match("self._parser.get_reg_type(M_r.operands[M_i])", n.value)
+            same_entry = m_ is not None and (U(m_["M_r"]) == reg or (isinstance(m_["M_r"], ast.Name) and set(
+                flow.origin_text(m_["M_r"])) & set(flow.origin_text([x for x in ast.walk(blk.test) if isinstance(x, ast.Name)][0]))))
+            rt_ok = rt_ok and m_ is not None and bool(same_entry) and \
+                U(flow.subst(m_["M_i"])) == "self.substitute_mem_address(instruction_form.operands).index(self._create_reg_wildcard())"
+        ctx.judge(rt_ok, bool(rts), "R1", "register type = type of the entry's operand at the substituted position",
+                  f.where(rts[0]) if rts else f.where(blk), "composition provenance broken: register type = type of the entry's operand at the substituted "
+                  "position (found %s)" % got_rt[:1], f.qname, "register type = type of the entry's operand at the substituted position")
+        looks = [c for c in ast.walk(f.node) if isinstance(c, ast.Call) and pm.call_name(c).endswith("get_instruction") and len(c.args) == 2
+                 and any(U(flow.subst(c.args[1])) == "self.substitute_mem_address(instruction_form.operands)" for _ in [0])]
+        need("register form is looked up with the memory operand replaced by the register wildcard", bool(looks))
     # the load / store parts are added exactly when the instruction loads / stores, from the right look-ups
     for flag, getter, what in (("HAS_LD", "get_load_throughput", "load"), ("HAS_ST", "get_store_throughput", "store")):
         calls = [c for c in ast.walk(blk) if isinstance(c, ast.Call) and pm.call_name(c).endswith(getter)]
-        need("%s micro-ops are looked up with %s" % (what, getter), len(calls) >= 1)
+        if not calls:
+            ctx.unknown("R1", "%s micro-ops are looked up with %s" % (what, getter), f.where(blk), "no call of %s in the composing block" % getter)
         for c in calls:
             need("%s micro-ops are added exactly when the instruction %ss" % (what, what),
                  C.holds_at(c, "INSTR_FLAGS.%s in instruction_form.flags" % flag), c)
@@ -448,7 +488,8 @@ def _r2(ctx):
         # entry variables
         entries = set()
         for n in ast.walk(f.node):
-            if isinstance(n, ast.Assign) and isinstance(n.targets[0], ast.Name) and C.is_call_to(n.value, "get_instruction"):
+            if isinstance(n, ast.Assign) and isinstance(n.targets[0], ast.Name) and (C.is_call_to(n.value, "get_instruction") or any(
+                    isinstance(x, ast.AST) and C.is_call_to(x, "get_instruction") for x in flow.expand(n.value))):
                 entries.add(n.targets[0].id)
         if q.endswith("_handle_instruction_found"):
             entries.add(f.params()[1])
@@ -657,10 +698,12 @@ def _d2(ctx):
         consulted[q] = {n.attr for n in ast.walk(m.node) if isinstance(n, ast.Attribute) and isinstance(n.value, ast.Name) and n.value.id == ip}
     for table, role in (("load_throughput", "dst"), ("store_throughput", "src")):
         loops = [l for l in ast.walk(init.node) if isinstance(l, ast.For) and U(l.iter) == "self._data['%s']" % table]
-        if len(loops) != 1:
+        comps = [l for l in ast.walk(init.node) if isinstance(l, (ast.ListComp, ast.GeneratorExp)) and len(l.generators) == 1
+                 and U(l.generators[0].iter) == "self._data['%s']" % table]
+        if len(loops) + len(comps) != 1:
             ctx.broken("D2: conversion loop over self._data['%s'] not found in MachineModel.__init__" % table)
-        loop = loops[0]
-        row = U(loop.target)
+        loop = (loops + comps)[0]
+        row = U(loop.target) if loops else U(loop.generators[0].target)
         mos = [c for c in ast.walk(loop) if isinstance(c, ast.Call) and pm.call_name(c) == "MemoryOperand"]
         if len(mos) != 1:
             ctx.broken("D2: MemoryOperand(...) construction for %s rows not found" % table)
@@ -770,7 +813,7 @@ def composition_rule(ctx):
     """R1 alone (embedded by C01 / C02 as a premise)."""
     f = ctx.func(FN)
     blk, reg = _composed_block(ctx, f)
-    _r1(ctx, f, blk, reg)
+    _r1(ctx, f, blk, reg, with_latency=False)
 
 
 def run(ctx):
